@@ -6,7 +6,7 @@ from .ir import REPO
 GOENV = dict(GOFLAGS="-mod=mod", GOPROXY="off", GOSUMDB="off", GOTOOLCHAIN="local")
 
 
-def go_test(code, pkg="", run="TestVerif", tags="", timeout=600, race=False, repo=None, extra_files=None):
+def go_test(code, pkg="", run="TestVerif", tags="", timeout=600, race=False, repo=None, extra_files=None, goarch=""):
     """pkg: '' (root package) or 'field'.  code: full text of a _test.go file in that package.
     returns (returncode, stdout+stderr)"""
     repo = repo or REPO
@@ -33,13 +33,15 @@ def go_test(code, pkg="", run="TestVerif", tags="", timeout=600, race=False, rep
         cmd += ["./" + pkg if pkg else "."]
         env = dict(os.environ, **GOENV)
         env["GOCACHE"] = env.get("GOCACHE", os.path.expanduser("~/.cache/go-build"))
+        if goarch:
+            env["GOARCH"] = goarch
         r = subprocess.run(cmd, cwd=repo, env=env, capture_output=True, text=True, timeout=timeout)
         return r.returncode, r.stdout + r.stderr
     finally:
         shutil.rmtree(tmp, ignore_errors=True)
 
 
-def run_ops(pkg, ops, tags="", repo=None, race=False):
+def run_ops(pkg, ops, tags="", repo=None, race=False, goarch=""):
     """execute a script of operations on the real compiled package via the injected driver;
     pkg '' (edwards25519) or 'field'.  returns list of result dicts"""
     from .ir import VERIF
@@ -53,7 +55,7 @@ def run_ops(pkg, ops, tags="", repo=None, race=False):
             json.dump(ops, f)
         os.environ["VERIF_OPS"] = opsf
         os.environ["VERIF_OUT"] = outf
-        rc, out = go_test(code, pkg=pkg, run="TestVerifDriver", tags=tags, repo=repo, race=race)
+        rc, out = go_test(code, pkg=pkg, run="TestVerifDriver", tags=tags, repo=repo, race=race, goarch=goarch)
         if rc != 0 or not os.path.exists(outf):
             raise RuntimeError("native driver failed (rc=%d):\n%s" % (rc, out[-3000:]))
         res = json.load(open(outf))
